@@ -612,9 +612,13 @@ pub fn sms_inner(cfg: GenCfg) -> BoxedStrategy<Spec> {
         }
       }
       let mut inner = concretize_map(&orig, &aim, cfg.ascii);
-      // inner sources get their own name space
-      for s in inner.sources.iter_mut() {
-        *s = format!("i{s}");
+      // inner sources get their own name space - except now and then, when a file of the inner map may
+      // carry the name of a file the outer map passes through (`normalize` keeps a shared name only
+      // for identical content)
+      if which % 4 != 1 {
+        for s in inner.sources.iter_mut() {
+          *s = format!("i{s}");
+        }
       }
       let has_content = !map.contents.is_empty();
       if has_content {
